@@ -126,10 +126,11 @@ class LibRegistry:
         if arr.dtype == "int" and ((isinstance(value, SArr) and value.dtype == "real") or (isinstance(value, Fraction)) or (isinstance(value, Sym) and value.sort == "real")):
             # numpy truncates on store into an int array: not modelled
             raise Unsupported("store of real into int array")
-        view = A.basic_index(cx, arr, tuple(sels))
-        if not isinstance(view, SArr):
-            # full index -> single cell: rebuild as 0-d view
-            view = _cell_view(itp, arr, tuple(sels))
+        full_cell = len(sels) == arr.ndim and all(s is not None and s is not Ellipsis and not (isinstance(s, tuple)) for s in sels)
+        if full_cell:
+            view = _cell_view(itp, arr, tuple(sels))  # single cell: a store must not count as a read
+        else:
+            view = A.basic_index(cx, arr, tuple(sels))
         A.assign_view(cx, view, value)
 
     def array_binop(self, itp, op, a, b):
